@@ -18,6 +18,14 @@ The conformance step builds every dumped (term, mode) on real ufl and
 
 Slices (bounded instances: terminal pool, atoms, constructor levels) on the same mesh kind share one
 TLC run (constant Configs); deep random terms come from TLC's simulation mode, seeded by ctx.seed.
+
+Mesh kinds (MESHES): the model is instantiated with the degree and continuity of the coordinate field
+and the geometric / topological dimension, i.e. with everything RestrictionPropagator.facet_normal
+looks at.  The specification decides from them whether the two facet normals are opposite
+(NormalsOpposite: affine non-manifold meshes only) or two independent vectors (degree-2 coordinates,
+broken coordinates, triangles immersed in R^3), checks that the environments generated here grant
+exactly that (ASSUME Admissible, ASSUME Discriminating) and predicts the propagated form; vectors have
+GDim components.
 """
 
 from __future__ import annotations
@@ -51,6 +59,8 @@ TERMINALS = {
     "x": ("x", 1),  # SpatialCoordinate
     "n": ("n", 1),  # FacetNormal
     "h": ("cellq", 0),  # CellVolume
+    "cn": ("cellq", 1),  # CellNormal (manifold meshes, gdim = tdim + 1)
+    "rn": ("sfacetq", 1),  # ReferenceNormal: facet quantity seen from the cell (gdim = tdim: shape (tdim,))
     "rc": ("cellq", 0),  # Circumradius (affine meshes only)
     "a": ("facetq", 0),  # FacetArea
     "mf": ("facetq", 0),  # MinFacetEdgeLength
@@ -69,6 +79,7 @@ HANDLER = {
     "n": "facet_normal",
     "cellq": "geometric_cell_quantity",
     "facetq": "geometric_facet_quantity",
+    "sfacetq": "geometric_facet_quantity",
     "const": "constant",
     "lit": "constant_value",
 }
@@ -84,6 +95,16 @@ INVARIANTS = (
     "DeviationKeepsMissing",
 )
 
+# mesh kinds: what facet_normal (and the mathematics of the two normals) distinguishes.  Cells are
+# triangles (tdim 2); "h1": the coordinate element is H1-conforming.
+MESHES = {
+    "affine": {"deg": 1, "h1": True, "gdim": 2, "tdim": 2, "text": "affine mesh"},
+    "p2mesh": {"deg": 2, "h1": True, "gdim": 2, "tdim": 2, "text": "P2 mesh"},
+    "manifold": {"deg": 1, "h1": True, "gdim": 3, "tdim": 2, "text": "affine manifold mesh (triangles in R^3)"},
+    "p2manifold": {"deg": 2, "h1": True, "gdim": 3, "tdim": 2, "text": "P2 manifold mesh (triangles in R^3)"},
+    "dgmesh": {"deg": 1, "h1": False, "gdim": 2, "tdim": 2, "text": "mesh with broken P1 coordinates"},
+}
+
 JAVA = "-DTLA-Library=/verif/spec -Xmx3g -Xmn256m -XX:ParallelGCThreads=2"
 
 
@@ -91,40 +112,47 @@ class Slice:
     """One bounded instance (a record of the constant Configs of spec/Restrict.tla).  atoms: operands
     available from the start, written "g", "g+", "g-", "grad(g)+", "rv(g)-" (default: the terminals)."""
 
-    def __init__(self, name, terms, levels, maxnodes=None, affine=True, maxdead=0, simulate=None, depth=None, atoms=None, run=None):
+    def __init__(self, name, terms, levels, maxnodes=None, mesh="affine", maxdead=0, simulate=None, depth=None, atoms=None, run=None):
         self.name = name
-        self.run = run or ("affine" if affine else "p2mesh")
+        self.mesh = mesh
+        self.run = run or mesh
         self.terms = list(terms)
         self.atoms = list(atoms) if atoms is not None else list(terms)
         self.levels = [sorted(l) for l in levels]
         self.maxnodes = maxnodes or len(levels)
-        self.affine = affine
         self.maxdead = maxdead
         self.simulate = simulate
         self.depth = depth
 
 
 class Run:
-    """One TLC run: slices on the same mesh kind and in the same mode (exhaustive / simulation) share
-    the terminal table (the union of theirs) and the environments."""
+    """One world of a TLC run (an entry of the constants MeshesC / TermsC / TValC): slices on the same
+    mesh kind and in the same mode (exhaustive / simulation) share the terminal table (the union of
+    theirs) and the environments."""
 
-    def __init__(self, name, slices=(), affine=True, simulate=None, depth=None, terms=None, nenv=2):
+    def __init__(self, name, slices=(), mesh="affine", simulate=None, depth=None, terms=None, nenv=2):
         self.name = name
         self.slices = list(slices)
-        self.affine = affine
+        self.mesh = mesh
+        self.geo = MESHES[mesh]
+        self.gdim = self.geo["gdim"]
         self.simulate = simulate
         self.depth = depth
         self.nenv = nenv
         self.terms = list(terms) if terms is not None else []
         for sl in self.slices:
             self.terms += [t for t in sl.terms if t not in self.terms]
+        for nm in self.terms:
+            if (nm in ("q", "rn") and self.gdim != self.geo["tdim"]) or (nm == "cn" and self.gdim != self.geo["tdim"] + 1):
+                raise MachineryError(f"terminal {nm} is not available on the mesh kind {mesh} (vectors of the model have gdim components)")
 
     def to_json(self):
-        return {"name": self.name, "terms": self.terms, "affine": self.affine, "nenv": self.nenv}
+        return {"name": self.name, "terms": self.terms, "mesh": self.mesh, "nenv": self.nenv}
 
     @staticmethod
     def from_json(j):
-        return Run(j["name"], (), j["affine"], terms=j["terms"], nenv=j.get("nenv", 2))
+        mesh = j["mesh"] if "mesh" in j else "affine" if j["affine"] else "p2mesh"  # (replay files written before the mesh kinds)
+        return Run(j["name"], (), mesh, terms=j["terms"], nenv=j.get("nenv", 2))
 
     def atom_term(self, a):
         side = a[-1] if a[-1] in "+-" else None
@@ -138,15 +166,48 @@ class Run:
         return ("R", t, side) if side else t
 
 
+class Batch:
+    """One invocation of TLC: several worlds (Run), each with its slices."""
+
+    def __init__(self, name, runs, simulate=None, depth=None):
+        self.name = name
+        self.runs = list(runs)
+        self.simulate = simulate
+        self.depth = depth
+        if len({r.nenv for r in self.runs}) != 1:
+            raise MachineryError(f"batch {name}: worlds with different numbers of environments")
+        self.nenv = self.runs[0].nenv
+        self.nslices = sum(len(r.slices) for r in self.runs)
+
+
+def batches(runs, quick):
+    """Worlds -> TLC invocations (the JVM start and warm-up cost more than a small world): the quick tier
+    explores every exhaustive world in one invocation, the thorough tier the affine worlds one by one and
+    the other mesh kinds together; every simulation runs on its own."""
+    ex = [r for r in runs if not r.simulate]
+    out = []
+    if quick:
+        out.append(Batch("exhaustive", ex))
+    else:
+        out += [Batch(r.name, [r]) for r in ex if r.mesh == "affine"]
+        rest = [r for r in ex if r.mesh != "affine"]
+        if rest:
+            out.append(Batch("meshes", rest))
+    out += [Batch(r.name, [r], r.simulate, r.depth) for r in runs if r.simulate]
+    return [b for b in out if b.runs]
+
+
 def group(sls):
-    """Slices -> runs: exhaustive slices of one mesh kind together, every simulation on its own."""
+    """Slices -> worlds: exhaustive slices of one mesh kind together, every simulation on its own."""
     runs = []
     for label in sorted({s.run for s in sls if not s.simulate}):
         ex = [s for s in sls if s.run == label and not s.simulate]
-        runs.append(Run(label, ex, ex[0].affine))
+        if len({s.mesh for s in ex}) != 1:
+            raise MachineryError(f"run {label}: slices on different mesh kinds")
+        runs.append(Run(label, ex, ex[0].mesh))
     for s in sls:
         if s.simulate:
-            runs.append(Run(s.name, [s], s.affine, s.simulate, s.depth))
+            runs.append(Run(s.name, [s], s.mesh, s.simulate, s.depth))
     return runs
 
 
@@ -161,14 +222,18 @@ def tla_term(t):
 
 def gen_envs(sl, seed):
     """envs[e][name][field]['+' | '-'] -> list of ints; field in v (value), g (gradient), r
-    (reference value).  The continuity constraints of the property are built in."""
+    (reference value); vectors have gdim components.  The continuity constraints of the property are
+    built in; the specification checks them (ASSUME Admissible) and that nothing more is built in for
+    the facet normal (ASSUME Discriminating)."""
+    G = sl.gdim
+    opposite_normals = sl.geo["deg"] <= 1 and sl.geo["h1"] and G == sl.geo["tdim"]
     rng = random.Random(seed * 1000003 + sum(ord(ch) for ch in sl.name) * 7919 + 5)
     envs = []
     for _ in range(sl.nenv):
         env = {}
         for nm in sl.terms:
             kind, sh = TERMINALS[nm]
-            L = sh + 1
+            L = G if sh else 1
 
             def vec(n, avoid=()):
                 while True:
@@ -189,11 +254,11 @@ def gen_envs(sl, seed):
                 v = {"+": [LITVAL[nm]], "-": [LITVAL[nm]]}
             elif kind in SINGLE:
                 v = pair(L, same=True)
-            elif kind == "n" and sl.affine:
+            elif kind == "n" and opposite_normals:
                 v = pair(L, opposite=True)
             else:
                 v = pair(L)
-            env[nm] = {"v": v, "g": pair(2), "r": pair(L, same=(kind == "cg"))}
+            env[nm] = {"v": v, "g": pair(G), "r": pair(L, same=(kind == "cg"))}
         envs.append(env)
     return envs
 
@@ -206,21 +271,28 @@ def _tla_pm(pm):
     return f"[p |-> {_tla_vec(pm['+'])}, m |-> {_tla_vec(pm['-'])}]"
 
 
-def mc_module(name, run, envs):
-    terms = ", ".join(f'[nm |-> "{nm}", kind |-> "{TERMINALS[nm][0]}", sh |-> {TERMINALS[nm][1]}]' for nm in run.terms)
-    tv = []
-    for env in envs:
-        tv.append("<<" + ",\n    ".join(f"[v |-> {_tla_pm(env[nm]['v'])}, g |-> {_tla_pm(env[nm]['g'])}, r |-> {_tla_pm(env[nm]['r'])}]" for nm in run.terms) + ">>")
-    cfgs = []
-    for sl in run.slices:
-        levels = ", ".join("{" + ", ".join(json.dumps(o) for o in l) + "}" for l in sl.levels)
-        atoms = ", ".join(tla_term(run.atom_term(a)) for a in sl.atoms)
-        cfgs.append(f'[name |-> "{sl.name}", atoms |-> <<{atoms}>>, levels |-> <<{levels}>>, maxnodes |-> {sl.maxnodes}, maxdead |-> {sl.maxdead}]')
+def mc_module(name, batch, envs):
+    """envs[i] = the environments of batch.runs[i]."""
+    meshes, terms, tvals, cfgs = [], [], [], []
+    for wi, run in enumerate(batch.runs):
+        g = run.geo
+        meshes.append(f'[name |-> "{run.mesh}", deg |-> {g["deg"]}, h1 |-> {"TRUE" if g["h1"] else "FALSE"}, gdim |-> {g["gdim"]}, tdim |-> {g["tdim"]}]')
+        terms.append("<<" + ", ".join(f'[nm |-> "{nm}", kind |-> "{TERMINALS[nm][0]}", sh |-> {TERMINALS[nm][1]}]' for nm in run.terms) + ">>")
+        tv = []
+        for env in envs[wi]:
+            tv.append("<<" + ",\n    ".join(f"[v |-> {_tla_pm(env[nm]['v'])}, g |-> {_tla_pm(env[nm]['g'])}, r |-> {_tla_pm(env[nm]['r'])}]" for nm in run.terms) + ">>")
+        tvals.append("<<" + ",\n   ".join(tv) + ">>")
+        for sl in run.slices:
+            levels = ", ".join("{" + ", ".join(json.dumps(o) for o in l) + "}" for l in sl.levels)
+            atoms = ", ".join(tla_term(run.atom_term(a)) for a in sl.atoms)
+            cfgs.append(f'[name |-> "{sl.name}", world |-> {wi + 1}, atoms |-> <<{atoms}>>, levels |-> <<{levels}>>, maxnodes |-> {sl.maxnodes}, maxdead |-> {sl.maxdead}]')
+    sep = ",\n  "
     return f"""---- MODULE {name} ----
 EXTENDS Restrict
-MC_Terms == <<{terms}>>
-MC_TVal == <<{",\n   ".join(tv)}>>
-MC_Configs == <<{",\n   ".join(cfgs)}>>
+MC_Meshes == <<{sep.join(meshes)}>>
+MC_Terms == <<{sep.join(terms)}>>
+MC_TVal == <<{sep.join(tvals)}>>
+MC_Configs == <<{sep.join(cfgs)}>>
 ====
 """
 
@@ -238,14 +310,14 @@ def modes():
     return ms
 
 
-def mc_cfg(run, dump=True):
+def mc_cfg(batch, dump=True):
     lines = [
         "CONSTANTS",
+        "MeshesC <- MC_Meshes",
         "TermsC <- MC_Terms",
         "TValC <- MC_TVal",
         "Configs <- MC_Configs",
-        f"NEnv = {run.nenv}",
-        f"Affine = {'TRUE' if run.affine else 'FALSE'}",
+        f"NEnv = {batch.nenv}",
         "Modes = {" + ", ".join(json.dumps(m) for m in modes()) + "}",
         "SPECIFICATION Spec",
     ]
@@ -255,13 +327,14 @@ def mc_cfg(run, dump=True):
     return "\n".join(lines) + "\n"
 
 
-def run_tlc(run, seed, workers=3, timeout=900):
-    envs = gen_envs(run, seed)
-    name = "MC_Restrict_" + run.name.replace("-", "_")
+def run_tlc(batch, seed, workers=3, timeout=900):
+    """-> ([environments of every world of the batch], TLC result)"""
+    envs = [gen_envs(r, seed) for r in batch.runs]
+    name = "MC_Restrict_" + batch.name.replace("-", "_")
     kw = {}
-    if run.simulate:
-        kw = dict(simulate=f"num={run.simulate}", depth=run.depth, seed=seed + 1)
-    res = tlc.run(name, mc_cfg(run), mc_text=mc_module(name, run, envs), mc_name=name, workers=workers, timeout=timeout, env={"JAVA_TOOL_OPTIONS": JAVA}, **kw)
+    if batch.simulate:
+        kw = dict(simulate=f"num={batch.simulate}", depth=batch.depth, seed=seed + 1)
+    res = tlc.run(name, mc_cfg(batch), mc_text=mc_module(name, batch, envs), mc_name=name, workers=workers, timeout=timeout, env={"JAVA_TOOL_OPTIONS": JAVA}, **kw)
     return envs, res
 
 
@@ -285,7 +358,13 @@ class World:
         self.ufl = ufl
         self.sl = sl
         cell = ufl.triangle
-        self.mesh = ufl.Mesh(LagrangeElement(cell, 1 if sl.affine else 2, (2,)))
+        geo = sl.geo
+        G = geo["gdim"]
+        if geo["h1"]:
+            ce = LagrangeElement(cell, geo["deg"], (G,))
+        else:
+            ce = FiniteElement("Discontinuous Lagrange", cell, geo["deg"], (G,), identity_pullback, L2)
+        self.mesh = ufl.Mesh(ce)
         m = self.mesh
 
         def space(e):
@@ -297,18 +376,20 @@ class World:
         mk = {
             "f1": lambda: ufl.Coefficient(space(LagrangeElement(cell, 1))),
             "f2": lambda: ufl.Coefficient(space(LagrangeElement(cell, 2))),
-            "u1": lambda: ufl.Coefficient(space(LagrangeElement(cell, 1, (2,)))),
-            "u2": lambda: ufl.Coefficient(space(LagrangeElement(cell, 2, (2,)))),
+            "u1": lambda: ufl.Coefficient(space(LagrangeElement(cell, 1, (G,)))),
+            "u2": lambda: ufl.Coefficient(space(LagrangeElement(cell, 2, (G,)))),
             "g": lambda: ufl.Coefficient(space(dg(1))),
             "g0": lambda: ufl.Coefficient(space(dg(0))),
-            "w": lambda: ufl.Coefficient(space(dg(1, (2,)))),
+            "w": lambda: ufl.Coefficient(space(dg(1, (G,)))),
             "q": lambda: ufl.Coefficient(space(FiniteElement("Raviart-Thomas", cell, 1, (2,), contravariant_piola, HDiv))),
             "v": lambda: ufl.TestFunction(space(LagrangeElement(cell, 1))),
             "vd": lambda: ufl.TrialFunction(space(dg(1))),
-            "vv": lambda: ufl.TestFunction(space(LagrangeElement(cell, 2, (2,)))),
+            "vv": lambda: ufl.TestFunction(space(LagrangeElement(cell, 2, (G,)))),
             "x": lambda: ufl.SpatialCoordinate(m),
             "n": lambda: ufl.FacetNormal(m),
             "h": lambda: ufl.CellVolume(m),
+            "cn": lambda: ufl.CellNormal(m),
+            "rn": lambda: ufl.classes.ReferenceNormal(m),
             "rc": lambda: ufl.Circumradius(m),
             "a": lambda: ufl.FacetArea(m),
             "mf": lambda: ufl.MinFacetEdgeLength(m),
@@ -325,18 +406,23 @@ class World:
             k = self.classify(o)
             if k != TERMINALS[nm][0]:
                 raise MachineryError(f"terminal {nm}: model kind {TERMINALS[nm][0]} but the real object is {k}")
-            if tuple(o.ufl_shape) != ((2,) if TERMINALS[nm][1] else ()):
+            if tuple(o.ufl_shape) != ((G,) if TERMINALS[nm][1] else ()):
                 raise MachineryError(f"terminal {nm}: shape {o.ufl_shape}")
+            if isinstance(o, (ufl.Coefficient, ufl.Argument)) and tuple(o.ufl_element().reference_value_shape) != tuple(o.ufl_shape):
+                raise MachineryError(f"terminal {nm}: reference value shape {o.ufl_element().reference_value_shape}")
+            if isinstance(o, (ufl.Coefficient, ufl.Argument)) and tuple(ufl.grad(o).ufl_shape) != (*o.ufl_shape, G):
+                raise MachineryError(f"terminal {nm}: gradient shape {ufl.grad(o).ufl_shape}")
+        # the mesh kind of the model must be the kind of the real mesh
         ce = m.ufl_coordinate_element()
-        aff = ce.embedded_superdegree <= 1 and ce in H1 and m.geometric_dimension == m.topological_dimension
-        if aff != sl.affine:
-            raise MachineryError("mesh affinity does not match the slice")
+        real = {"deg": ce.embedded_superdegree, "h1": ce in H1, "gdim": m.geometric_dimension, "tdim": m.topological_dimension}
+        if real != {k: geo[k] for k in real}:
+            raise MachineryError(f"mesh kind {sl.mesh}: the model has {geo}, the real mesh {real}")
         self.cache = {}
 
     @staticmethod
     def classify(o):
         """Kind of a real terminal, from what the property's continuity assumptions depend on."""
-        from ufl.classes import Argument, Coefficient, Constant, ConstantValue, FacetNormal, GeometricCellQuantity, GeometricFacetQuantity, SpatialCoordinate
+        from ufl.classes import Argument, Coefficient, Constant, ConstantValue, FacetArea, FacetNormal, GeometricCellQuantity, MaxFacetEdgeLength, MinFacetEdgeLength, ReferenceNormal, SpatialCoordinate
         from ufl.sobolevspace import H1
 
         if isinstance(o, ConstantValue):
@@ -351,8 +437,10 @@ class World:
             return "x"
         if isinstance(o, FacetNormal):
             return "n"
-        if isinstance(o, GeometricFacetQuantity):
-            return "facetq"
+        if isinstance(o, (FacetArea, MinFacetEdgeLength, MaxFacetEdgeLength)):
+            return "facetq"  # a quantity of the physical facet alone
+        if isinstance(o, ReferenceNormal):
+            return "sfacetq"  # the facet as a local facet of the cell
         if isinstance(o, GeometricCellQuantity):
             return "cellq"
         return "?" + type(o).__name__
@@ -539,8 +627,9 @@ def leaves_of(w, expr):
     return leaves, problems
 
 
-def structure_findings(w, out, d, leaves, problems):
-    """Structural postcondition of the property on a real result (independent of the model)."""
+def structure_findings(w, out, d, leaves, problems, opposite):
+    """Structural postcondition of the property on a real result (independent of the model's
+    propagation; opposite = the specification's NormalsOpposite for the mesh kind)."""
     F = []
     for p in sorted(problems):
         if p.startswith(("restriction-on-nonterminal", "double-restriction", "restricted-literal", "foreign-terminal")):
@@ -556,7 +645,7 @@ def structure_findings(w, out, d, leaves, problems):
             F.append(("C17:structure:restricted-constant", f"the constant {nm} is restricted in the result"))
         if d == "default" and side == "0" and kind not in ("const", "lit"):
             F.append((f"C17:structure:default-not-applied:{ch or kind}", f"{nm} is not restricted although defaults are applied"))
-        if d != "none" and w.sl.affine and kind == "n" and side == "-":
+        if d != "none" and opposite and kind == "n" and side == "-":
             F.append(("C17:structure:facet-normal-minus-left", "n('-') survives on an affine mesh with default restrictions"))
     return F
 
@@ -633,7 +722,7 @@ def judge(w, envs, rec, stats, form_every=0):
     sl = w.sl
     term = tup(rec["term"])
     d = rec["d"]
-    text = f"{term_text(sl, term)} [{MODE_TEXT[d]}, {'affine' if sl.affine else 'P2'} mesh]"
+    text = f"{term_text(sl, term)} [{MODE_TEXT[d]}, {sl.geo['text']}]"
     try:
         expr = w.build(term)
     except Exception as exc:  # noqa: BLE001
@@ -691,7 +780,7 @@ def _judge_direct(w, envs, rec, term, expr, in_leaves, text, stats):
             F.append(("C17:structure:leaves-differ", f"{text}: result has {sorted(out_leaves)} predicted {sorted(want_out)}"))
         return F
     # valid and accepted: structure and value
-    F += [(fp, f"{text}: {what} -> {str(out)[:120]}") for fp, what in structure_findings(w, out, d, out_leaves, problems)]
+    F += [(fp, f"{text}: {what} -> {str(out)[:120]}") for fp, what in structure_findings(w, out, d, out_leaves, problems, _opposite_normals(w, rec))]
     if out_leaves != want_out:
         # rebuilding an operator from propagated operands may fold it (a conditional whose branches became
         # equal): leaves may disappear (the value is compared below), none may appear
@@ -727,6 +816,8 @@ def _judge_direct(w, envs, rec, term, expr, in_leaves, text, stats):
         _bump(stats, "evals", len(vout))
         if not veq(vout, vin):
             h = _handler_of(w, envs, in_leaves, d, term[0])
+            if h == "facet_normal" and w.sl.mesh != "affine":
+                h += ":" + w.sl.mesh  # the one rule that depends on the mesh kind
             F.append((f"C17:value-changed:{h}", f"{text}: env {e}: value {_fmt(vin)} before, {_fmt(vout)} after -> {str(out)[:120]}"))
             break
     return F
@@ -760,7 +851,7 @@ def _judge_form(w, envs, rec, expr, text, stats):
         _bump(stats, "forms_dropped")
         return []
     leaves, problems = leaves_of(w, out)
-    F = [(fp + ":compute_form_data", f"{text}: {what} (through compute_form_data)") for fp, what in structure_findings(w, out, d, leaves, problems)]
+    F = [(fp + ":compute_form_data", f"{text}: {what} (through compute_form_data)") for fp, what in structure_findings(w, out, d, leaves, problems, _opposite_normals(w, rec))]
     for e, env in enumerate(envs):
         try:
             if not veq(eval_vec(out, env), eval_vec(expr, env)):
@@ -770,6 +861,13 @@ def _judge_form(w, envs, rec, expr, text, stats):
             F.append(("C17:structure:unrestricted:compute_form_data", f"{text}: the integrand of the form data has the unrestricted {exc}"))
             break
     return F
+
+
+def _opposite_normals(w, rec):
+    """NormalsOpposite of the specification for the mesh kind of the record."""
+    if "opp" in rec:
+        return rec["opp"]
+    return w.sl.mesh == "affine"  # replay files written before the mesh kinds: "affine" / "p2mesh" only
 
 
 def _first(xs):
@@ -818,7 +916,10 @@ def slices(tier):
     except where maxdead > 0 allows two constructed operands."""
     q = tier == "quick"
     T1 = ["f1", "u2", "g", "w", "q", "v", "vv", "x", "n", "h", "rc", "a", "mf", "c", "cv"]
-    T2 = ["f2", "g0", "vd", "x", "n", "h", "a", "c"]
+    T2 = ["f2", "g0", "vd", "x", "n", "rn", "h", "a", "c"]
+    TM = ["f1", "u1", "g", "w", "v", "x", "n", "cn", "h", "a", "c"]  # triangles in R^3: vectors have three components
+    TN = ["n", "x", "g"]
+    GEOM = ["n", "x", "u1", "w", "h", "cn"]
     UN = {"R", "var", "neg", "idx", "jump", "avg", "jumpn"}
     GEO = ["n", "x", "u2", "w", "h", "a"]
     GRD = ["f2", "g", "v", "n"]
@@ -827,7 +928,12 @@ def slices(tier):
     out = [
         # every terminal kind, bare and below one / two restrictions, through the unary constructors
         Slice("terminals", T1, [BASE, UN, {"R"}]),
-        Slice("terminals-p2mesh", T2, [BASE, UN, {"R"}], affine=False),
+        Slice("terminals-p2mesh", T2, [BASE, UN, {"R"}], mesh="p2mesh"),
+        # the mesh kinds on which the two facet normals are independent although the coordinate field has degree 1
+        # (immersed manifold, broken coordinates), and the curved manifold
+        Slice("terminals-manifold", TM, [BASE, UN, {"R"}], mesh="manifold"),
+        Slice("normals-dgmesh", TN, [BASE, UN, {"R"}], mesh="dgmesh"),
+        Slice("normals-p2manifold", TN, [BASE, UN, {"R"}], mesh="p2manifold"),
     ]
     if q:
         out += [
@@ -837,6 +943,7 @@ def slices(tier):
             Slice("cond", ["f1", "g", "h"], [{"cond", "R"}, {"R"}], atoms=["f1", "g", "g+", "g-", "h-"]),
             Slice("two-branch", ["f1", "g", "n"], [{"R", "idx"}, {"R", "idx"}, {"add", "div"}], maxdead=1, atoms=["f1", "g", "n"]),
             Slice("deep", DEEPT, [DEEP | {"use"}] + [DEEP] * 4, maxnodes=5, simulate=40, depth=7, atoms=DEEPA),
+            Slice("geometry-manifold", GEOM, [{"R", "dot", "mul", "idx", "jumpn"}, {"R", "add", "neg"}], mesh="manifold", atoms=["n", "x", "w", "h", "cn", *pm("n", "w"), "cn-", "h-"]),
         ]
     else:
         out += [
@@ -845,7 +952,7 @@ def slices(tier):
             Slice("arith3", ["f1", "g", "c"], [{"R", "mul", "div"}, {"R", "add", "mul"}, {"R", "add"}], atoms=["f1", "g", "c", "g+", "g-"]),
             # geometry: normal, coordinate, cell and facet quantities with vectors
             Slice("geometry", GEO, [{"R", "dot", "mul", "idx", "jumpn"}, {"R", "add", "mul", "neg", "dot"}], atoms=[*GEO, *pm("n", "w", "h"), "x-", "u2-", "a-"]),
-            Slice("geometry-p2mesh", ["n", "x", "w", "h"], [{"R", "dot", "mul", "idx", "jumpn"}, {"R", "add", "neg", "dot"}, {"R"}], affine=False, atoms=["n", "x", "w", "h", *pm("n", "w"), "h+", "x-"]),
+            Slice("geometry-p2mesh", ["n", "x", "w", "h"], [{"R", "dot", "mul", "idx", "jumpn"}, {"R", "add", "neg", "dot"}, {"R"}], mesh="p2mesh", atoms=["n", "x", "w", "h", *pm("n", "w"), "h+", "x-"]),
             # gradients, reference values, arguments
             Slice("grad", GRD, [{"R", "dot", "mul", "idx", "var", "grad", "rv"}, {"R", "mul", "add", "jumpn", "avg", "dot"}], atoms=[*GRD, *pm("grad(f2)", "grad(g)", "grad(v)", "rv(g)", "rv(v)", "n", "v"), "rv(f2)", "rv(f2)-"]),
             # conditionals
@@ -855,7 +962,9 @@ def slices(tier):
             Slice("two-branch", ["f1", "g", "n", "w"], [{"R", "idx"}, {"R", "dot", "mul"}, {"add", "mul", "div"}], maxdead=1, atoms=["f1", "g", "n", "w", "g+", "n-"], run="affine-b"),
             # deeper random terms
             Slice("deep", DEEPT, [DEEP | {"use"}] + [DEEP] * 5, maxnodes=6, simulate=1000, depth=8, atoms=DEEPA),
-            Slice("deep-p2mesh", ["f2", "g0", "w", "vd", "x", "n", "h", "a", "c"], [DEEP | {"use"}] + [DEEP] * 5, maxnodes=6, affine=False, simulate=500, depth=8, atoms=["f2", "x", "a", "c", "g0", "n", *pm("g0", "w", "vd", "n", "h"), "f2-"]),
+            Slice("geometry-manifold", GEOM, [{"R", "dot", "mul", "idx", "jumpn"}, {"R", "add", "mul", "neg", "dot"}], mesh="manifold", atoms=[*GEOM, *pm("n", "w", "h", "cn"), "x-", "u1-"]),
+            Slice("deep-manifold", ["f1", "u1", "g", "w", "v", "x", "n", "cn", "h", "a", "c"], [DEEP | {"use"}] + [DEEP] * 5, maxnodes=6, mesh="manifold", simulate=500, depth=8, atoms=["f1", "u1", "x", "a", "c", "g", "n", *pm("g", "w", "v", "n", "h", "cn"), "f1-", "grad(f1)+", "grad(g)-"]),
+            Slice("deep-p2mesh", ["f2", "g0", "w", "vd", "x", "n", "h", "a", "c"], [DEEP | {"use"}] + [DEEP] * 5, maxnodes=6, mesh="p2mesh", simulate=500, depth=8, atoms=["f2", "x", "a", "c", "g0", "n", *pm("g0", "w", "vd", "n", "h"), "f2-"]),
         ]
     return out
 
@@ -891,10 +1000,10 @@ def _judge_chunk(args):
 def conform(ctx, run, envs, recs, pool, form_every, best):
     t0 = time.time()
     runj = run.to_json()
-    if pool is None or len(recs) < 4000:
+    if pool is None or len(recs) < 3000:
         results = [_judge_chunk((runj, envs, recs, form_every))]
     else:
-        n = 2500
+        n = 1500
         results = pool.map(_judge_chunk, [(runj, envs, recs[i : i + n], form_every) for i in range(0, len(recs), n)])
     stats, found = {}, []
     for s, f in results:
@@ -922,7 +1031,7 @@ def conform(ctx, run, envs, recs, pool, form_every, best):
         ctx.count("undefined_skipped", st.get("undefined_skipped", 0))
         ctx.count("terms", len(terms))
         ctx.count("forms_through_compute_form_data", st.get("forms", 0))
-        ctx.cov.setdefault("slices", []).append({"slice": sl.name, "run": run.name, "affine": run.affine, "terms": len(terms), "records": len(mine), "status": {k: v for k, v in sorted(st.items())}})
+        ctx.cov.setdefault("slices", []).append({"slice": sl.name, "run": run.name, "mesh": run.mesh, "terms": len(terms), "records": len(mine), "status": {k: v for k, v in sorted(st.items())}})
         print(f"  slice {sl.name}: terms={len(terms)} records={len(mine)} judged={st.get('judged', 0)} forms={st.get('forms', 0)} simplified={st.get('construction_simplified', 0)}", flush=True)
     ctx.count("replay_s", round(time.time() - t0, 1))
     return stats
@@ -938,12 +1047,13 @@ def run(ctx, args):
     ctx.rule = (
         "TLC builds interior-facet integrands bottom-up (one action per constructor: terminal kinds H1/non-H1 coefficient, argument, x, n, cell and "
         "facet quantities, Constant, literal; grad / reference_value of a terminal, t('+'), t('-'), variable, -, +, *, /, dot, [i], conditional, jump, "
-        "jump(.,n), avg), level by level per slice (exhaustive) and by simulation for deeper terms, on an affine and on a P2-coordinate mesh, then applies "
+        "jump(.,n), avg), level by level per slice (exhaustive) and by simulation for deeper terms, on every mesh kind facet_normal distinguishes (triangles: affine, "
+        "P2 coordinates, affine immersed in R^3, P2 immersed in R^3, broken P1 coordinates), then applies "
         "the propagation with and without default restrictions; each (term, mode) is built on real ufl and judged; a case = one (term, mode); "
         "non-trivial = the term has at least one operator"
     )
-    ctx.assume("admissible environments only: H1 coefficients, x, facet quantities and constants have equal '+' and '-' values; n('-') = -n('+') on the affine mesh (gdim = tdim, P1 coordinates) and independent on the P2-coordinate mesh; non-H1 coefficients, arguments, cell quantities and all gradients have independent values")
-    ctx.assume("input class = integrands after apply_derivatives: grad and reference_value wrap terminals only; triangle meshes in R^2; scalar and R^2-vector valued terms")
+    ctx.assume("admissible environments only: H1 coefficients, x, facet quantities and constants have equal '+' and '-' values; n('-') = -n('+') exactly on the affine non-manifold mesh (gdim = tdim, H1 P1 coordinates) and two independent vectors on every other mesh kind (P2 coordinates, broken P1 coordinates, triangles immersed in R^3: the conormals of a surface with a kink); non-H1 coefficients, arguments, cell quantities (volume, circumradius, cell normal), the reference normal and all gradients have independent values; the specification checks the generated environments against this (ASSUME Admissible) and that they do not make independent normals opposite (ASSUME Discriminating)")
+    ctx.assume("input class = integrands after apply_derivatives: grad and reference_value wrap terminals only; triangle meshes in R^2 and R^3; scalar and R^gdim-vector valued terms (no Piola-mapped element and no reference normal on the immersed meshes: their reference shape is (tdim,))")
     ctx.assume("expressions that ufl folds when they are built (literal-only subterms, conditional with equal branches) are not judged (counted as construction_simplified)")
     ctx.assume("apply_restrictions(default_restrictions=None) is documented as 'just propagate restrictions': passing an integrand with a missing restriction is predicted by the model and not a finding there; 'missing restrictions are rejected, default-restriction on/off' is demanded of compute_form_data(do_apply_restrictions=True, do_apply_default_restrictions=True/False) on scalar integrands without arguments and reference values")
     ctx.assume("trusted: the evaluator vf/sem.py (bound to the model: the meaning TLC predicts for every valid term is compared with its value of the real expression)")
@@ -951,32 +1061,37 @@ def run(ctx, args):
     only = os.environ.get("VERIF_SLICES")
     if only:
         sls = [s for s in sls if s.name in only.split(",")]
-    runs = group(sls)
+    bts = batches(group(sls), quick)
     from concurrent.futures import ThreadPoolExecutor, as_completed
     from multiprocessing import get_context
 
     tops = set()
-    pool = None if quick else get_context("fork").Pool(6)
+    pool = get_context("fork").Pool(4 if quick else 6)
     best = {}  # fingerprint -> smallest failing case over all slices
     try:
-        # the big exhaustive runs start first (two TLC workers each); each run is replayed when it ends
-        runs.sort(key=lambda r: -len(r.slices))
-        with ThreadPoolExecutor(3 if quick else 2) as ex:
-            futs = {ex.submit(run_tlc, r, ctx.seed, 2 if len(r.slices) > 1 else 1, 900): r for r in runs}
+        # the big exhaustive runs start first; each run is replayed when it ends
+        bts.sort(key=lambda b: -b.nslices)
+        with ThreadPoolExecutor(3) as ex:
+            futs = {ex.submit(run_tlc, b, ctx.seed, 6 if b.nslices > 6 else 2 if b.nslices > 1 else 1, 900): b for b in bts}
             for fut in as_completed(futs):
-                r = futs[fut]
+                b = futs[fut]
                 envs, res = fut.result()
                 ctx.add_tlc(res)
                 if res.outcome != "ok":
                     tail = "\n".join([l for l in res.stdout.splitlines() if not l.startswith('"{')][-40:])
-                    raise MachineryError(f"TLC run {r.name}: {res.outcome} {res.violated}\n{tail}")
-                recs = records_of(res)
-                tops |= {x["term"][0] for x in recs}
-                print(f"  run {r.name}: {'simulation' if r.simulate else 'exhaustive'} states={res.distinct} records={len(recs)} tlc={res.wall:.1f}s", flush=True)
-                conform(ctx, r, envs, recs, pool, 3 if quick else 4, best)
-                if len(ctx.cov["samples"]) < 5:
-                    x = next((x for x in recs if x["valid"] and x["verdict"] == "accept" and x["d"] == "default" and len(json.dumps(x["term"])) > 60), recs[0])
-                    ctx.sample({"run": r.name, "slice": x["cfg"], "term": term_text(r, tup(x["term"])), "mode": x["d"], "verdict": x["verdict"], "predicted_leaves": x["leaves"], "predicted_value_env1": x["vals"][0]})
+                    raise MachineryError(f"TLC run {b.name}: {res.outcome} {res.violated}\n{tail}")
+                allrecs = records_of(res)
+                tops |= {x["term"][0] for x in allrecs}
+                print(f"  run {b.name}: {'simulation' if b.simulate else 'exhaustive'} worlds={[r.name for r in b.runs]} states={res.distinct} records={len(allrecs)} tlc={res.wall:.1f}s", flush=True)
+                for r, renvs in zip(b.runs, envs):
+                    mine = {sl.name for sl in r.slices}
+                    recs = [x for x in allrecs if x["cfg"] in mine]
+                    if any(x["mesh"] != r.mesh for x in recs):
+                        raise MachineryError(f"world {r.name}: TLC explored a slice on another mesh kind")
+                    conform(ctx, r, renvs, recs, pool, 3 if quick else 4, best)
+                    if len(ctx.cov["samples"]) < 5:
+                        x = next((x for x in recs if x["valid"] and x["verdict"] == "accept" and x["d"] == "default" and len(json.dumps(x["term"])) > 60), recs[0])
+                        ctx.sample({"run": r.name, "mesh": r.mesh, "slice": x["cfg"], "term": term_text(r, tup(x["term"])), "mode": x["d"], "verdict": x["verdict"], "predicted_leaves": x["leaves"], "predicted_value_env1": x["vals"][0]})
     finally:
         if pool is not None:
             pool.terminate()
@@ -1022,13 +1137,13 @@ def selftest(ctx):
     from ufl.algorithms.apply_restrictions import RestrictionPropagator as RP
 
     sl = Run("selftest", [Slice("selftest", ["n", "u2", "g", "f1", "c"], [{"R", "dot", "mul", "jumpn"}, {"R", "add"}], atoms=["n", "u2", "g", "f1", "c", *pm("n", "g"), "u2-", "f1-"])])
-    envs, res = run_tlc(sl, ctx.seed, 2, 300)
+    (envs,), res = run_tlc(Batch("selftest", [sl]), ctx.seed, 2, 300)
     tlc.require_ok(res, "Restrict[selftest]")
     recs = records_of(res)
     w = World(sl)
     tenvs = [TwoSidedEnv(w, e) for e in envs]
 
-    def fps(rs, patch=None, form_every=0):
+    def fps(rs, patch=None, form_every=0, w=w, tenvs=tenvs):
         saved = {}
         for k, f in (patch or {}).items():
             saved[k] = RP.__dict__[k]
@@ -1075,6 +1190,50 @@ def selftest(ctx):
     rejected["mutant: operators are restricted again"] = sorted(f for f in got if f.startswith("C17:structure:"))
     got = fps(recs, {"_require_restriction": lambda self, o: o if self.current_restriction is None and self.default_restrictions is None else o("+") if self.current_restriction else RP.__dict__["_missing_rule"](self, o)})
     rejected["mutant: every required restriction becomes '+'"] = sorted(f for f in got if f.startswith("C17:value-changed"))
+    # the guard of facet_normal, on the mesh kinds where the two normals are independent
+    kinds = ["manifold", "dgmesh", "p2mesh", "p2manifold"]
+    mruns = [Run("selftest-" + k, [Slice("selftest-" + k, ["n", "g"], [{"R", "dot", "mul", "idx", "jumpn"}, {"R", "neg"}], mesh=k, atoms=["n", "g", *pm("n", "g")])], k) for k in kinds]
+    menvs, mres = run_tlc(Batch("selftest-meshes", mruns), ctx.seed, 2, 300)
+    tlc.require_ok(mres, "Restrict[selftest-meshes]")
+    mrecs = records_of(mres)
+
+    def guard(cond):
+        def facet_normal(self, o):
+            from ufl.domain import extract_unique_domain
+            from ufl.sobolevspace import H1
+
+            D = extract_unique_domain(o)
+            e = D.ufl_coordinate_element()
+            if cond(e.embedded_superdegree, e in H1, D.geometric_dimension, D.topological_dimension):
+                return self._opposite(o)
+            return self._require_restriction(o)
+
+        return facet_normal
+
+    guards = {
+        "manifold": ("gd >= td instead of gd == td", lambda deg, h1, gd, td: deg <= 1 and h1 and gd >= td),
+        "dgmesh": ("no test for an H1 coordinate element", lambda deg, h1, gd, td: deg <= 1 and gd == td),
+        "p2mesh": ("no test for the degree of the coordinate element", lambda deg, h1, gd, td: h1 and gd == td),
+        "p2manifold": ("every mesh is taken for affine", lambda deg, h1, gd, td: True),
+    }
+    for r, e in zip(mruns, menvs):
+        mw = World(r)
+        mt = [TwoSidedEnv(mw, x) for x in e]
+        rs = [x for x in mrecs if x["cfg"] == r.slices[0].name]
+        if not rs or any(x["opp"] for x in rs):
+            raise MachineryError(f"selftest: no records / opposite normals on {r.mesh}")
+        base = fps(rs, w=mw, tenvs=mt)
+        if base:
+            raise MachineryError(f"selftest: the unmodified code does not conform on {r.mesh}: {sorted(base)}")
+        what, cond = guards[r.mesh]
+        got = fps(rs, {"facet_normal": guard(cond)}, w=mw, tenvs=mt)
+        rejected[f"mutant: facet_normal guard, {what} ({r.mesh})"] = sorted(f for f in got if f == "C17:value-changed:facet_normal:" + r.mesh)
+        # the model's own notion of where the normals are opposite must matter: a prediction that claims it is rejected
+        c = copy.deepcopy(next(x for x in rs if x["valid"] and x["d"] == "default" and x["term"] == ["R", ["T", 1], "-"]))
+        c["leaves"] = [{"nm": "n", "ch": "", "s": "+"}]
+        rejected[f"corrupt: predicted n('-') -> n('+') ({r.mesh})"] = sorted(f for f in fps([c], w=mw, tenvs=mt) if f == "C17:structure:leaves-differ")
+    ctx.add_tlc(mres)
+    ctx.traces(len(mrecs))
     # corrupted predictions
     k = next(i for i, r in enumerate(recs) if r["valid"] and r["verdict"] == "accept" and r["d"] == "default" and r["term"][0] in ("dot", "add", "mul") and from_tla(r["vals"][0][0]) is not None)
     c = copy.deepcopy(recs[k])
